@@ -6,6 +6,8 @@
 #include "worlds/net_common.hpp"
 
 #include "ephemeralnet/daemon/ControlPlane.hpp"
+#include "ephemeralnet/protocol/Manifest.hpp"
+#include "ephemeralnet/protocol/Message.hpp"
 #include "ephemeralnet/security/StoreProof.hpp"
 
 #include <sstream>
@@ -18,6 +20,7 @@ bool serve_loop_running();
 ephemeralnet::Node* daemon_node(int pid);
 std::mutex* daemon_node_mutex(int pid);
 void reset_daemon_registry();
+std::optional<std::vector<std::uint8_t>> cli_decrypt(const ephemeralnet::protocol::Manifest& manifest, const ephemeralnet::protocol::ChunkPayload& payload);
 }  // namespace verif_w4
 
 namespace wl {
